@@ -125,6 +125,7 @@ def run(chk):
                                   f"{fn} on {kind} elements ({cname}) = {str(r_)[:80]} but set algebra on the elements gives {want}",
                                   {"fn": fn, "A": [repr(x) for x in A], "B": [repr(x) for x in B], "container": cname})
     # ---- overlap measures
+    import pyrepseq as _prs
     ops, checks = [], []
     universe = ["a", "b", "c", "dd", "", "E", "f g"]
     for _ in range(150 if not thorough else 1500):
@@ -139,6 +140,9 @@ def run(chk):
                     ("ndarray-nan", np.array(Af, dtype=object), np.array(Bf, dtype=object), An, Bn),
                     ("list", A, B, A, B), ("set", set(A), set(B), A, B), ("series", pd.Series(A, dtype=object), pd.Series(B, dtype=object), A, B),
                     ("series-na", pd.Series(An, dtype=object), pd.Series(Bn, dtype=object), An, Bn),
+                    # one Series (with missing values) against a plain list / set, in both orders: each Series drops ITS missing values
+                    ("series-na-vs-list", pd.Series(An, dtype=object), list(B), An, B), ("list-vs-series-na", list(A), pd.Series(Bn, dtype=object), A, Bn),
+                    ("series-na-vs-set", pd.Series(An, dtype=object), set(B), An, B),
                     ("list-na", An, Bn, An, Bn), ("tuple", tuple(A), tuple(B), A, B)]
         for cname, ca, cb, ma, mb in variants:
             for fn in ("jaccard_index", "overlap", "overlap_coefficient"):
@@ -149,8 +153,11 @@ def run(chk):
                         continue    # ratio forms: non-empty collections
                 opn = {"jaccard_index": "jaccard", "overlap": "overlap", "overlap_coefficient": "overlap_coefficient"}[fn]
                 ops.append({"op": opn, "a": ma, "b": mb})
-                checks.append((fn, cname, ma, mb, core.call_real(lambda fn=fn, ca=ca, cb=cb: getattr(st, fn)(ca, cb)),
-                               core.call_real(lambda fn=fn, ca=ca, cb=cb: getattr(st, fn)(cb, ca))))
+                # (the functions are reached as the package exports them - `pyrepseq.overlap` - for the containers with missing
+                #  values, and through pyrepseq.stats for the others)
+                ns_ = _prs if ("na" in cname or "nan" in cname) else st
+                checks.append((fn, cname, ma, mb, core.call_real(lambda fn=fn, ca=ca, cb=cb, ns_=ns_: getattr(ns_, fn)(ca, cb)),
+                               core.call_real(lambda fn=fn, ca=ca, cb=cb, ns_=ns_: getattr(ns_, fn)(cb, ca))))
                 # the SAME object on both sides (the diagonal of a pairwise overlap table): missing values are dropped there too
                 if [x for x in ma if x is not None] and rng.random() < 0.35:
                     ops.append({"op": opn, "a": ma, "b": ma})
